@@ -25,7 +25,8 @@ RULE = ("histories every call of which is accepted with the checks on (built on 
         "processes (BIGTREE_CONF_ASSERTIONS unset / empty); the outcome and the store after every call are compared "
         "between the processes and with the model at assertions=true/false; then a battery of readers (derived queries, "
         "all iterators, go_to, exports, searches) on the final objects of both processes must agree.  Non-trivial: >= 3 calls.")
-EXHAUSTIVE = {"quick": "", "thorough": ""}
+EXHAUSTIVE = {"quick": "every forest reachable on 3 BaseNode / Node objects x every call without hook fault that the checks accept",
+              "thorough": "the same on 4 BaseNode objects (193 forests) and on 3 nodes for two Node name assignments"}
 MODELLED = ["the ASSERTIONS switch is a parameter of every modelled setter; the guard skeleton of the six setters is re-extracted "
             "from the source on every run (Generated.guardBlocks / assertionsOtherReads / checkFunctions)"]
 ASSUMPTIONS = ["with the checks off only arguments the checks would accept are in the domain of the claim"]
@@ -37,8 +38,25 @@ def mk_case(d, tags=()):
     return Case(U.mk_line(d), d, tags)
 
 
+def _no_fault(op):
+    return not any(t.startswith("fault=") for t in U.op_tags(op))
+
+
 def _store_gen(rng: random.Random, tier: str):
     cases = []
+    # exhaustive: every forest reachable on N nodes x every call (no hook fault) that the checks accept
+    plan = [("base", 3, []), ("node", 3, ["a", "b", "ab"])]
+    if tier == "thorough":
+        plan += [("base", 4, []), ("node", 3, ["a", "b", "a"])]
+    for cls, n, names in plan:
+        uni = [o for o in U.arg_universe(n, cls, names) if _no_fault(o)]
+        paths = U.explore(cls, n, names, "/", uni)
+        for _st, path in paths.items():
+            for op in uni:
+                d = U.mk_data(cls, n, names, "/", path + [op])
+                nodes = U.make_nodes(d)
+                if all(U.apply_op(nodes, o) == "ok" for o in d["ops"]):
+                    cases.append(mk_case(d, ("enum", f"enum-{cls}-n={n}") + tuple(U.op_tags(op))))
     nr = 500 if tier == "quick" else 5000
     for i in range(nr):
         cls = "base" if i % 2 == 0 else "node"
